@@ -378,3 +378,15 @@ func Handover(off time.Duration) Admin {
 		sched.SetMember(old)
 	}}
 }
+
+// Seq runs several admin actions one after the other (with one request served in between).
+func Seq(name string, as ...Admin) Admin {
+	return Admin{Name: name, Run: func(w *World, n1 *Node) {
+		for i, a := range as {
+			if i > 0 {
+				w.Request(n1, 1)
+			}
+			a.Run(w, n1)
+		}
+	}}
+}
